@@ -102,3 +102,19 @@ Print Assumptions distinct_canonical_keys_are_functional.
 Print Assumptions velocity_relations.
 Print Assumptions velocity_relations_SI.
 Print Assumptions unit_constants.
+
+(** 5. the sign hypotheses of [velocity_relations] follow from positive definiteness (VRHPos.v) *)
+From Cij Require VRHPos.
+Theorem velocity_relations_for_posdef : forall (c s : Z -> Z -> R) (ry M V : R),
+  msym c -> posdef c -> left_inverse s c -> 0 < ry -> 0 < M -> 0 < V ->
+  let rho := mass M / V in
+  rho * (v_secondary ry M V c s)² = ry * shear_vrh c s /\
+  rho * (v_primary ry M V c s)² = ry * (bulk_vrh c s + 4 / 3 * shear_vrh c s) /\
+  0 < v_primary ry M V c s /\ 0 < v_secondary ry M V c s.
+Proof.
+  intros c s ry M V Hc Hpd Hinv Hry HM HV rho.
+  destruct (VRHPos.velocity_relations_posdef c s Hc Hpd Hinv ry M V Hry HM HV) as [A B].
+  destruct (VRHPos.velocities_positive c s Hc Hpd Hinv ry M V Hry HM HV) as [P S].
+  repeat split; assumption.
+Qed.
+Print Assumptions velocity_relations_for_posdef.
